@@ -79,7 +79,16 @@ func (fc *FuncContract) Mod(profile string) *ModClause {
 	return generic
 }
 
+// GhostFn: an integer ghost function defined point-wise, one point per loop
+// iteration: at the head of the iteration, NAME(Idx) is defined as Val.
+type GhostFn struct {
+	Name     string
+	Idx, Val Expr
+	Text     string
+}
+
 type LoopContract struct {
+	GhostFns    []*GhostFn
 	Invariants  []*Clause
 	Decreases   *Clause
 	HasModifies bool
@@ -556,6 +565,21 @@ func (cs *ContractSet) addClause(fc *FuncContract, t, file string, line int) err
 				return err
 			}
 			lc.Decreases = c
+		case "ghostfn":
+			// ghostfn NAME(idx) = value
+			i, j, k := strings.Index(srest, "("), strings.Index(srest, ")"), strings.Index(srest, "=")
+			if i < 0 || j < i || k < j {
+				return fmt.Errorf("%s:%d: ghostfn NAME(idx) = expr", file, line)
+			}
+			idx, err := ParseExpr(srest[i+1 : j])
+			if err != nil {
+				return fmt.Errorf("%s:%d: %v", file, line, err)
+			}
+			val, err := ParseExpr(srest[k+1:])
+			if err != nil {
+				return fmt.Errorf("%s:%d: %v", file, line, err)
+			}
+			lc.GhostFns = append(lc.GhostFns, &GhostFn{Name: strings.TrimSpace(srest[:i]), Idx: idx, Val: val, Text: srest})
 		case "modifies":
 			props, _, r := parseTags(srest)
 			lc.HasModifies = true
